@@ -197,7 +197,7 @@ def main():
     global PROG
     tier = C.tier()
     rep = H.Report(PROP, tier)
-    N = 6 if tier == 'quick' else 7
+    N = 6 if tier == 'quick' else 8
     prog = PROG = H.load_program(['canister'])
     btc.load_dep_decls(prog)
     rep.cov['bounds'] = dict(tree_blocks=N, difficulty='symbolic in [1, 2^100)', min_confirmations='symbolic u32 >= 1 (0 is the unfiltered case of C02)',
